@@ -574,6 +574,15 @@ func c09Check(c *harness.Ctx) {
 					if !run(cs) {
 						return
 					}
+					if !legal[st][name] {
+						// the unexpected message is immediately followed by FIN: it arrived first and
+						// must still be answered
+						fin := cs
+						fin.Post, fin.End = "", "fin"
+						if !run(fin) {
+							return
+						}
+					}
 				}
 			}
 			// received NOTIFICATIONs
@@ -590,6 +599,17 @@ func c09Check(c *harness.Ctx) {
 						cs := stimCase{Kind: "table", State: st, Inbound: inbound, Msg: fmt.Sprintf("notification(%d,%d,len%d)", code, sub, dl),
 							Stimulus: hex.EncodeToString(n), Expect: "silent-close", Post: hex.EncodeToString(wire.Update([]byte("AFTER")))}
 						if !run(cs) {
+							return
+						}
+					}
+				}
+			}
+			// data whose first octet looks like a length (RFC 9003 style), right and wrong
+			for _, cc := range [][2]byte{{6, 2}, {6, 4}, {6, 0}, {2, 7}, {3, 1}, {5, 1}} {
+				for _, data := range [][]byte{{64, 'b', 'y', 'e'}, {3, 'b', 'y', 'e'}, {0}, {255}, {1}, {2, 'a'}, bytes.Repeat([]byte{0xff}, 128)} {
+					n := wire.Notification(cc[0], cc[1], data)
+					for _, end := range []string{"", "fin"} {
+						if !run(stimCase{Kind: "table", State: st, Inbound: inbound, Msg: fmt.Sprintf("notification(%d,%d,%x)", cc[0], cc[1], trunc(data)), Stimulus: hex.EncodeToString(n), End: end, Expect: "silent-close"}) {
 							return
 						}
 					}
